@@ -49,7 +49,7 @@ Fixpoint encode (v : pyval) : res string :=
   | VTuple l => enc_list l
   | VList l => enc_list l
   | VDict kvs => do items <- enc_items kvs ; Ok (join_items (sort_kvs items))
-  | VParam a b c d e n =>
+  | VParam a b c d e n _ =>
       do ea <- encode a ; do eb <- encode b ; do ec <- encode c ;
       do ed <- encode d ; do ee <- encode e ;
       Ok (ea ++ eb ++ ec ++ ed ++ ee ++ n)
@@ -104,19 +104,3 @@ Definition preimage (keys : list string) (fp : list (string * pyval)) (x y : pyv
   : res string :=
   do hl <- hashlist keys fp x y ; encode_all hl.
 
-(* ---- hex presentation layer used only by the correspondence files -------- *)
-Definition hexdigit (c : ascii) : option N :=
-  let n := N_of_ascii c in
-  if (48 <=? n)%N && (n <=? 57)%N then Some (n - 48)%N
-  else if (97 <=? n)%N && (n <=? 102)%N then Some (n - 87)%N
-  else None.
-
-Fixpoint of_hex (s : string) : string :=
-  match s with
-  | String a (String b t) =>
-      match hexdigit a, hexdigit b with
-      | Some x, Some y => String (ascii_of_N (16 * x + y)) (of_hex t)
-      | _, _ => ""
-      end
-  | _ => ""
-  end.
